@@ -72,7 +72,7 @@ class P04(SessionPlan):
         return ["profiles x CONNACK return codes 0..255 x session-present x keepalive {0,7} x protocol level {3,4} x transport model"]
 
     def required_counters(self, tier):
-        return {"accepted": 100, "refused": 1000, "no_connack": 50, "losses": 500}
+        return {"accepted": 100, "refused": 1000, "no_connack": 50, "losses": 500, "reconnect_after_refusal": 20}
 
     def extra_cases(self, tier, seed):
         for prof in ("pub", "sub", "pubsub"):
@@ -84,7 +84,8 @@ class P04(SessionPlan):
                         st += [("pub", 0, 1), ("lose", 0, "done")]    # a broker closes after refusing
                     yield C.SessionCase("handshake-matrix", cfg, steps=st)
         alpha = [("connack", 0, 0, False), ("connack", 0, 0, True), ("connack", 0, 5, False), ("connack", 0, 200, True),
-                 ("adv", 11), ("tick",), ("lose", 0, "done"), ("lose", 0, "lost"), ("pub", 0, 1), ("pingresp", 0)]
+                 ("adv", 11), ("tick",), ("lose", 0, "done"), ("lose", 0, "lost"), ("pub", 0, 1), ("pingresp", 0),
+                 ("connect", 0, True, 0, 4), ("connect", 0, False, 4, 3)]     # again, e.g. on the protocol a refusal left idle
         depth = 3 if tier == "quick" else 4
         for ondisc, rec in ((True, False), (False, False), (True, True)):
             cs = [Cfg(profile=p, model=m, ondisc=ondisc, re_connect_on_disc=rec)
